@@ -327,3 +327,17 @@ Lemma kwrefused_witness :
     /\ length (versions_of 1 (w_post w)) = S (length (versions_of 1 (w_pre w)))
     /\ map v_vals (versions_of 1 (w_post w)) ++ [[(CA, VInt 1); (CB, VNull); (CC, VInt 7)]] <> hist_of 1 (w_post w).
 Proof. eexists. split; [right; left; reflexivity|]. repeat split. vm_compute. discriminate. Qed.
+
+(* ------------------------------------------------------------------ masters on another connection than the class's own *)
+(* whatever the connection mode, the history is the class-mode history and the class's own database is not touched *)
+Lemma wfinal_any foreign ops : forall ws,
+  w_main (wfinal foreign ws ops) = vfinal (w_main ws) ops /\ w_decoy (wfinal foreign ws ops) = w_decoy ws.
+Proof.
+  induction ops as [|o r IH]; intros ws; [split; reflexivity|].
+  unfold wfinal, vfinal in *. cbn [fold_left]. destruct (IH (fst (wstep foreign ws o))) as [H1 H2].
+  rewrite H1, H2. unfold wstep. split; reflexivity.
+Qed.
+
+(* the witness of the defect fixed by 61db062: restore() of a version on a foreign connection *)
+Definition ops_foreign : list vop :=
+  [VCreate [(CA, VInt 1)]; VAssign 1 CB (VStr [120%N]); VAssign 1 CA (VInt 4); VRestore 1].
